@@ -56,9 +56,33 @@ def packLE16 (n : Int) : Py (List Nat) :=
 /-- `struct.pack(">I", n)` -/
 def packBE32 (n : Nat) : List Nat := be32 n
 
-def decDigits (n : Nat) : List Char := (toString n).toList
+def decDigit (n : Nat) : Char := Char.ofNat (48 + n % 10)
+
+/-- decimal numeral of `n` (`str(n)`), structural on a fuel argument so that the kernel evaluates it -/
+def decDigitsFuel : Nat → Nat → List Char
+  | 0, n => [decDigit n]
+  | f + 1, n => if n < 10 then [decDigit n] else decDigitsFuel f (n / 10) ++ [decDigit n]
+
+def decDigits (n : Nat) : List Char := decDigitsFuel 40 n
 
 /-- two-digit zero padded decimal `"%02d"` -/
 def dec2 (n : Nat) : List Char := rjust (decDigits n) 2 '0'
+
+def isAsciiDigit (c : Char) : Bool := '0' ≤ c && c ≤ '9'
+
+/-- value of an ASCII decimal numeral -/
+def decVal (cs : List Char) : Nat := cs.foldl (fun a c => a * 10 + (c.toNat - 48)) 0
+
+/-- `time.strptime(s, "%H:%M")` / `datetime.strptime(s, "%H:%M")` on ASCII text: exactly `D{1,2}:D{1,2}`
+    with hour ≤ 23 and minute ≤ 59 (the regex `(2[0-3]|[0-1]\d|\d):([0-5]\d|\d)`, full match) -/
+def parseHM (s : List Char) : Option (Nat × Nat) :=
+  match s.span (· != ':') with
+  | (hs, ':' :: ms) =>
+    if hs.all isAsciiDigit && ms.all isAsciiDigit && 1 ≤ hs.length && hs.length ≤ 2 && 1 ≤ ms.length && ms.length ≤ 2
+        && decVal hs ≤ 23 && decVal ms ≤ 59 then some (decVal hs, decVal ms) else none
+  | _ => none
+
+/-- `str(datetime.timedelta(seconds=s))` for 0 ≤ s < 86400: `H:MM:SS` -/
+def strTimedelta (s : Nat) : List Char := decDigits (s / 3600) ++ [':'] ++ dec2 (s / 60 % 60) ++ [':'] ++ dec2 (s % 60)
 
 end Model
